@@ -43,13 +43,15 @@ class Outcome:
                 (None -> the scenario itself is used)
     info        free-form dict kept for samples / replay files
     """
-    __slots__ = ("bucket", "violations", "nontrivial", "info")
+    __slots__ = ("bucket", "violations", "nontrivial", "info", "n", "nt_keys")
 
-    def __init__(self, bucket, violations=None, nontrivial=None, info=None):
+    def __init__(self, bucket, violations=None, nontrivial=None, info=None, n=1, nt_keys=None):
         self.bucket = bucket
         self.violations = violations or []
         self.nontrivial = nontrivial
         self.info = info
+        self.n = n              # evaluations carried out inside this execution (inner loops)
+        self.nt_keys = nt_keys  # optional iterable of further non-trivial case keys
 
 
 class Ctx:
@@ -118,6 +120,7 @@ def short(v, n=120):
 class Stats:
     def __init__(self):
         self.executions = 0
+        self.evaluations = 0
         self.states = 0          # choice nodes visited (sum over executions of new points)
         self.transitions = 0     # edges taken
         self.buckets = Counter()
@@ -133,6 +136,7 @@ class Stats:
 
     def merge(self, o):
         self.executions += o.executions
+        self.evaluations += o.evaluations
         self.states += o.states
         self.transitions += o.transitions
         self.buckets.update(o.buckets)
@@ -162,6 +166,7 @@ def run_once(harness, prefix, expect=None):
 
 def _record(stats, ctx, out, new_from, sample_every):
     stats.executions += 1
+    stats.evaluations += out.n
     npts = len(ctx.points)
     stats.states += npts - new_from + (1 if new_from == 0 else 0)
     stats.transitions += npts - new_from
@@ -170,7 +175,10 @@ def _record(stats, ctx, out, new_from, sample_every):
     stats.max_depth = max(stats.max_depth, npts)
     key = out.nontrivial
     if key is not None:
-        stats.nontrivial.add(key)
+        stats.nontrivial.add(hash(key))
+    if out.nt_keys:
+        for k in out.nt_keys:
+            stats.nontrivial.add(hash(k))
     if out.violations:
         for v in out.violations:
             stats.viol_count += 1
